@@ -5,7 +5,7 @@ reader-sugar, longhand and Go-API form; macro bodies x argument forms x call sit
 import vcommon as V
 
 META = dict(
-    text="Lean 4 theorems (Props/C15.lean) prove for every template at any nesting depth of lists, arrays and hashes, every value of the unquoted expressions and every data stack that the instruction sequence GenerateSyntaxQuote emits (marker / squash / explode / vectorize / hashize), run on the stack machine of vm.go, pushes exactly the structurally substituted template (Spec/Subst.lean: unquote -> its value, splice -> the elements of its list, incl. first/last/adjacent/empty splices), leaves the stack below untouched, fails exactly when the substitution is undefined, and that a splice outside any sequence is refused. The six unit-level examples in tests/*.zy cover flat templates only; the theorem covers all of them.",
+    text="Lean 4 theorems (Props/C15.lean) prove for every template at any nesting depth of lists, arrays and hashes, every value of the unquoted expressions and every data stack that the instruction sequence GenerateSyntaxQuote emits (marker / squash / explode / vectorize / hashize), run on the stack machine of vm.go, pushes exactly the structurally substituted template (Spec/Subst.lean: unquote -> its value, splice -> the elements of its list, incl. first/last/adjacent/empty splices), leaves the stack below untouched, fails exactly when the substitution is undefined, and that a splice outside any sequence is refused; on a model of the macro call path (Duplicate / Apply / Generate of the expansion) that compiling a call of a template macro equals compiling the substituted body and that expansion leaves the caller's control state unchanged. The emission skeleton of the generator functions is regenerated from source and checked against the model by decide. The six unit-level examples in tests/*.zy cover flat templates only; the theorem covers all of them.",
     note="Trusted: Lean kernel; axioms propext/Classical.choice/Quot.sound. Model/SQ.lean is hand-written and tied to zygo/generator.go + vm.go by the `sq` correspondence (exhaustive sequences up to length 3 over an 8-element alphabet x list/array x 3 input routes, random templates to depth 4, instruction listings compared one by one, macro bodies x call sites), which is differential testing. The code of an unquoted expression is abstracted as one step that pushes one value (property C04); its value and the hash constructor are parameters. The reader sugar (^ ~ ~@) and the macro call path (Duplicate/Apply/Generate of the expansion) are tied by correspondence only.",
     technique="Lean 4 proof (marker discipline by mutual structural induction on templates) over an executable model + model/implementation correspondence",
     design_ref="DESIGN.md §7 C15",
